@@ -44,6 +44,15 @@ def check(P, R):
     from . import c04
     c04.check_reader_premise(P, R, 'C13.a', 'the size that is compared with the limit is the size of the whole declared body: a reader that stops early on a short read '
                              'lets an oversized body through truncated')
+    # a body kept on disk has "identical content": the spooled file stays open while the response is produced, and an upload reads its own part of it only
+    from ..report import Sub as _Sub13
+    bm_ = P.cls(f'{BM}:BodyMixin').methods.get('_body')
+    if bm_ is not None:
+        decs_ = [d for d in bm_.node.decorator_list if isinstance(d, ast.Call) and dotted(d.func) == 'cache_in']
+        c04.check_nobody_closes_body(P, _Sub13(R, why='a body larger than the in-memory threshold is kept on disk with identical content - readable as long as the request lives'),
+                                     'C13.c', bm_, decs_)
+    from . import c07 as _c07
+    _c07.check_upload_window(P, _Sub13(R, why='a body larger than the in-memory threshold is kept on disk, not loaded: an upload reads its own part only'), 'C13.c')
     f = P.func(f'{BM}:_body_read')
     g, rd = f.cfg, f.rd
     fors = [n for n in walk_shallow(f.node) if isinstance(n, ast.For)]
